@@ -224,6 +224,9 @@ func (c *channel) sendMsg(req request) (err error) {
 
 	c.streamMut.RLock()
 	defer c.streamMut.RUnlock()
+	// The goroutine below may still be running after this method has returned and released
+	// the read lock, that is, while reconnect replaces c.cancelStream; read it here.
+	cancelStream := c.cancelStream
 
 	done := make(chan struct{})
 
@@ -243,7 +246,7 @@ func (c *channel) sendMsg(req request) (err error) {
 				// false alarm
 			default:
 				// trigger reconnect
-				c.cancelStream()
+				cancelStream()
 			}
 		}
 	}()
